@@ -30,7 +30,7 @@ MAX_TIMEOUTS = {"quick": 2, "thorough": 40}
 REQUIRED = {"geometric_checks": 300, "direction_checks": 150, "direction_checks_wrapped": 15, "distance_checks": 60,
             "cycle_checks": 40, "persistence_checks": 20, "sampled_distances": 20, "multi_restraint_runs": 10,
             "regions_at_box_face": 15, "interleaved_molecule_names": 30, "several_restraints_of_one_kind": 30,
-            "rings_started_inside": 15, "ring_bonds_listed_in_any_order": 20, "blocks_with_two_direction_lines": 30, "two_restrained_species": 30}
+            "rings_started_inside": 15, "ring_bonds_listed_in_any_order": 20, "blocks_with_two_direction_lines": 30, "two_restrained_species": 30, "starts_at_a_restrained_residue": 30}
 TOP = """[ defaults ]
 1 2 no 1.0 1.0
 [ atomtypes ]
@@ -73,7 +73,7 @@ def setup():
 
 def plan(tier, seed):
     n = 780 if tier == "quick" else 6000
-    modes = ["geom", "geom", "geom_edge", "rw", "rw", "rw_small", "dist", "cycle", "cycle", "pers", "mix", "two_dist", "shell", "two_rw", "dist2sp"]
+    modes = ["geom", "geom", "geom_edge", "rw", "rw", "rw_small", "dist", "cycle", "cycle", "pers", "mix", "two_dist", "shell", "two_rw", "dist2sp", "geom_start"]
     return [[modes[i % len(modes)], i] for i in range(n)]
 
 
@@ -123,7 +123,7 @@ def run_case(cid, rng, workdir):
     # interleaved molecule names: the [ molecule ] block then names an index range that also covers molecules of
     # another name, which the block must not touch
     inter_w = 0
-    if mode not in ("pers", "cycle") and nm >= 2 and rng.random() < 0.4:
+    if mode != "pers" and nm >= 2 and rng.random() < 0.4:
         inter_w = rng.randint(1, 2)
         if not lead:
             extra = "[ moleculetype ]\nW 1\n[ atoms ]\n1 A 1 WAT W 1 0.0\n"
@@ -195,6 +195,18 @@ def run_case(cid, rng, workdir):
 
     if mode == "geom":
         add_geom()
+    elif mode == "geom_start":
+        # growth starts (-start) at a residue inside the chain that must stay out of a large sphere; the first residue of
+        # the chain is not restrained: the start point is judged by the restraints of the residue that is put there
+        c = np.array([round(x, 3) for x in box / 2])
+        pars = [round(0.36 * float(np.min(box)), 3)]
+        for nm_ in ("RA", "RB"):
+            bl.extend(["[ sphere ]", "%s %d %d out %.3f %.3f %.3f %.3f" % (nm_, 2, nres + 1, c[0], c[1], c[2], pars[0])])
+            restr.append(("geom", "sphere", "out", c, pars, nm_, 2, nres + 1))
+        k0 = rng.randint(2, nres)
+        kw["start"] = ["M-%s#%d" % (names[k0 - 1], k0)] if rng.random() < 0.5 else \
+            ["M#%d-%s#%d" % (lead, names[k0 - 1], k0)]
+        bump(res, "starts_at_a_restrained_residue")
     elif mode == "geom_edge":
         # forbidden region hugging a box face / edge / corner in a small box: residues that cross the opposite face
         # re-enter next to (or inside) it
